@@ -324,3 +324,19 @@ func Gen(t *rapid.T) Case {
 	c.Mask = rapid.SampledFrom([]rune{'*', 0xe9, 0x65e5, 0x1f600, 'a', 0xfffd, 0x7f, 0x80, 0xff, 0x100, 0x7ff, 0x800, 0xffff, 0x10000}).Draw(t, "mask")
 	return c
 }
+
+// Rotate returns text rotated left by k of its runes (a byte that is not part of a valid encoding counts as one
+// rune): a text of the same length with the same runes in another arrangement.
+func Rotate(text string, k int) string {
+	var cuts []int
+	for i := 0; i < len(text); {
+		cuts = append(cuts, i)
+		_, size := utf8.DecodeRuneInString(text[i:])
+		i += size
+	}
+	if len(cuts) == 0 {
+		return text
+	}
+	at := cuts[k%len(cuts)]
+	return string(append(append(make([]byte, 0, len(text)), text[at:]...), text[:at]...))
+}
